@@ -15,6 +15,10 @@ import (
 // where a read value goes, independent of local names.
 func Sym(v ssa.Value) string { return sym(v, 0) }
 
+// SymInvokeRecv: render the receiver of interface method calls as first argument
+// (off by default: most frozen renderings predate it).
+var SymInvokeRecv bool
+
 func paramIdx(p *ssa.Parameter) int {
 	for i, q := range p.Parent().Params {
 		if q == p {
@@ -110,6 +114,9 @@ func sym(v ssa.Value, d int) string {
 			name = FuncName(o)
 		}
 		var args []string
+		if SymInvokeRecv && x.Call.IsInvoke() {
+			args = append(args, sym(x.Call.Value, d+1))
+		}
 		for _, a := range x.Call.Args {
 			args = append(args, sym(a, d+1))
 		}
